@@ -139,7 +139,7 @@ theorem layout_disjoint (o : Obj) (os : OStream) (r : SaveRes) (hdr : Bytes)
     (hs : save o os = .ok r) (hok : r.ok = true) (hh : o.hdr = some hdr)
     (hn : o.secs.length < 65536)
     (h0 : ∀ (i : Nat) (s : SecBuf), o.secs[i]? = some s → s.Occ → s.index ≠ 0)
-    (hnw : layoutNW o hdr = true) :
+    (hnw : layoutNW (preSave o) hdr = true) :
     let eh := (Hdr.e_ehsize o.cls o.enc (saveHdr0 o hdr)).toNat
     let pht := (Hdr.e_phentsize o.cls o.enc (saveHdr0 o hdr)).toNat * (Hdr.e_phnum o.cls o.enc (saveHdr0 o hdr)).toNat
     let shoff := r.obj.curPos.toNat
@@ -150,17 +150,19 @@ theorem layout_disjoint (o : Obj) (os : OStream) (r : SaveRes) (hdr : Bytes)
     eh + pht < shoff ∧ shoff % 16 = 0 := by
   obtain ⟨hdr', res, hh', hl, hsegs, hcur, hsecs⟩ := save_layout o os r hs hok
   rw [hh] at hh'; simp only [Option.some.injEq] at hh'; subst hh'
-  obtain ⟨hP, -, hlt, h16⟩ := layout_packed o hdr res hl hnw hn h0
+  have hn' : (preSave o).secs.length < 65536 := by rw [preSave_length]; exact hn
+  have h0' := preSave_h0 o h0
+  obtain ⟨hP, -, hlt, h16⟩ := layout_packed (preSave o) hdr res hl hnw hn' h0'
   have hP' : Packed res.pos0.toNat res.pos3.toNat r.obj.secs
       (fun k => res.lay2.Gen k ∨ withoutSegment res.segs k = true) := by
     apply hP.of_hdrOf
     rw [hsecs, residentForSave_hdr]; simp
-  have hall := placed_all o hdr res hl hnw hn h0
-  obtain ⟨hhdr0, hpos0, -⟩ := layoutOf_parts o hdr res hl
+  have hall := placed_all (preSave o) hdr res hl hnw hn' h0'
+  obtain ⟨hhdr0, hpos0, -⟩ := layoutOf_parts (preSave o) hdr res hl
   have hp0 : res.pos0.toNat = (Hdr.e_ehsize o.cls o.enc res.hdr0).toNat +
       (Hdr.e_phentsize o.cls o.enc res.hdr0).toNat * (Hdr.e_phnum o.cls o.enc res.hdr0).toNat := by
-    rw [hpos0, save_cursor0_toNat]
-  rw [hhdr0] at hp0
+    rw [hpos0, save_cursor0_toNat]; rfl
+  rw [hhdr0, saveHdr0_preSave] at hp0
   simp only [hcur]
   refine ⟨?_, ?_, ?_, h16⟩
   · intro k s hk ho
@@ -178,18 +180,31 @@ theorem layout_aligned (o : Obj) (os : OStream) (r : SaveRes) (hdr : Bytes)
     (hs : save o os = .ok r) (hok : r.ok = true) (hh : o.hdr = some hdr)
     (hn : o.secs.length < 65536)
     (h0 : ∀ (i : Nat) (s : SecBuf), o.secs[i]? = some s → s.Occ → s.index ≠ 0)
-    (hnw : layoutNW o hdr = true)
+    (hnw : layoutNW (preSave o) hdr = true)
     (k : Nat) (s0 s : SecBuf) (h0k : o.secs[k]? = some s0) (hk : r.obj.secs[k]? = some s)
     (ha : s0.addrSet = false) (hnn : s0.stype ≠ BitVec.ofNat 32 SHT_NULL) (hi : s0.index ≠ 0) :
     s.offset.toNat % (max s0.addrAlign.toNat 1) = 0 := by
   obtain ⟨hdr', res, hh', hl, -, -, hsecs⟩ := save_layout o os r hs hok
   rw [hh] at hh'; simp only [Option.some.injEq] at hh'; subst hh'
+  have hn' : (preSave o).secs.length < 65536 := by rw [preSave_length]; exact hn
+  have h0' := preSave_h0 o h0
   have he : r.obj.secs.map hdrOf = res.secs.map hdrOf := by
     rw [hsecs, residentForSave_hdr]; simp
   obtain ⟨s', hs', hhs⟩ := hdrOf_getElem? he k s hk
-  have := layout_aligned_res o hdr res hl hnw hn h0 k s0 s' h0k hs' ha hnn hi
+  -- the section at position `k` when the layout starts has the same header fields as `s0`
+  obtain ⟨t0, ht0, hht⟩ : ∃ t0, (preSave o).secs[k]? = some t0 ∧ hdrOf t0 = hdrOf s0 := by
+    have h1 : ((preSave o).secs.map hdrOf)[k]? = some (hdrOf s0) := by
+      rw [preSave_hdr, List.getElem?_map, h0k]; rfl
+    rw [List.getElem?_map] at h1
+    cases hq : (preSave o).secs[k]? with
+    | none => rw [hq] at h1; exact nomatch h1
+    | some t0 => rw [hq] at h1; exact ⟨t0, rfl, by simpa using h1⟩
+  simp only [hdrOf, Prod.mk.injEq] at hht
+  obtain ⟨-, -, e3, e4, -, -, e7, e8⟩ := hht
+  have := layout_aligned_res (preSave o) hdr res hl hnw hn' h0' k t0 s' ht0 hs'
+    (by rw [e8]; exact ha) (by rw [e3]; exact hnn) (by rw [e4]; exact hi)
   simp only [hdrOf, Prod.mk.injEq] at hhs
-  rw [← hhs.1]; exact this
+  rw [← hhs.1, ← e7]; exact this
 
 /-! ### writer domain: one segment of `layout_segments_and_their_sections`
 
@@ -277,7 +292,7 @@ with members is neither the PHDR nor the offset-0 special case.  Segment indices
     theorems talk about -/
 theorem save_secs_hdr (o : Obj) (os : OStream) (r : SaveRes) (hdr : Bytes)
     (hs : save o os = .ok r) (hok : r.ok = true) (hh : o.hdr = some hdr) :
-    ∃ res, layoutOf o hdr = .ok (some res) ∧ r.obj.segs = res.segs ∧ r.obj.curPos = res.shoff ∧
+    ∃ res, layoutOf (preSave o) hdr = .ok (some res) ∧ r.obj.segs = res.segs ∧ r.obj.curPos = res.shoff ∧
       r.obj.secs.map hdrOf = res.secs.map hdrOf := by
   obtain ⟨hdr', res, hh', hl, hsegs, hcur, hsecs⟩ := save_layout o os r hs hok
   rw [hh] at hh'; simp only [Option.some.injEq] at hh'; subst hh'
@@ -294,8 +309,8 @@ theorem save_segments (cov ins : Bool) (o : Obj) (os : OStream) (r : SaveRes) (h
     (hs : save o os = .ok r) (hok : r.ok = true) (hh : o.hdr = some hdr)
     (hn : o.secs.length < 65536)
     (h0 : ∀ (i : Nat) (s : SecBuf), o.secs[i]? = some s → s.Occ → s.index ≠ 0)
-    (hnw : layoutNW o hdr = true) (hnd : (o.segs.map (·.index)).Nodup)
-    (hdom : layoutDomB cov ins o hdr = true) (g : Seg) (hg : g ∈ r.obj.segs) :
+    (hnw : layoutNW (preSave o) hdr = true) (hnd : (o.segs.map (·.index)).Nodup)
+    (hdom : layoutDomB cov ins (preSave o) hdr = true) (g : Seg) (hg : g ∈ r.obj.segs) :
     g.filesz.toNat ≤ g.memsz.toNat ∧
     (g.secs ≠ [] → g.align.toNat ≤ 9223372036854775808 →
       g.offset.toNat % (max g.align.toNat 1) = g.vaddr.toNat % (max g.align.toNat 1)) ∧
@@ -306,7 +321,9 @@ theorem save_segments (cov ins : Bool) (o : Obj) (os : OStream) (r : SaveRes) (h
         (s.addr - g.vaddr).toNat + s.size.toNat ≤ g.memsz.toNat)) := by
   obtain ⟨res, hl, hsegs, -, he⟩ := save_secs_hdr o os r hdr hs hok hh
   rw [hsegs] at hg
-  obtain ⟨f1, f2, f3, -⟩ := final_segments cov ins o hdr res hl hnw hn h0 hnd hdom g hg
+  have hn' : (preSave o).secs.length < 65536 := by rw [preSave_length]; exact hn
+  have h0' := preSave_h0 o h0
+  obtain ⟨f1, f2, f3, -⟩ := final_segments cov ins (preSave o) hdr res hl hnw hn' h0' hnd hdom g hg
   refine ⟨f1, f2, ?_⟩
   intro idx hidx s hk
   obtain ⟨s', hs', hhs⟩ := hdrOf_getElem? he idx.toNat s hk
@@ -328,19 +345,22 @@ theorem save_layoutOk (o : Obj) (os : OStream) (r : SaveRes) (hdr : Bytes)
     (hn : o.secs.length < 65536)
     (h0 : ∀ (i : Nat) (s : SecBuf), o.secs[i]? = some s → s.Occ → s.index ≠ 0)
     (hnull0 : ∀ s ∈ o.secs, s.stype = BitVec.ofNat 32 SHT_NULL → s.size = 0)
-    (hnw : layoutNW o hdr = true) (hnd : (o.segs.map (·.index)).Nodup)
-    (hdom : layoutDomB false false o hdr = true) : LayoutOk r.obj := by
+    (hnw : layoutNW (preSave o) hdr = true) (hnd : (o.segs.map (·.index)).Nodup)
+    (hdom : layoutDomB false false (preSave o) hdr = true) : LayoutOk r.obj := by
   obtain ⟨hin, hdisj, hlt, -⟩ := layout_disjoint o os r hdr hs hok hh hn h0 hnw
+  have hn' : (preSave o).secs.length < 65536 := by rw [preSave_length]; exact hn
+  have h0' := preSave_h0 o h0
   have hnull : ∀ s ∈ r.obj.secs, s.stype = BitVec.ofNat 32 SHT_NULL → s.size = 0 := by
     intro s hm he
     obtain ⟨res, hl, -, -, hmap⟩ := save_secs_hdr o os r hdr hs hok hh
     obtain ⟨k, hk⟩ := List.getElem?_of_mem hm
     obtain ⟨s', hs', hhs⟩ := hdrOf_getElem? hmap k s hk
-    obtain ⟨s0, hs0, hm0⟩ := final_orig o hdr res hl hnw hn h0 k s' hs'
-    simp only [hdrOf, Prod.mk.injEq] at hhs
-    rw [← hhs.2.1, hm0.size]
-    apply hnull0 s0 (List.mem_of_getElem? hs0)
-    rw [← hm0.stype, hhs.2.2.1]; exact he
+    obtain ⟨s0, hs0, hm0⟩ := final_orig (preSave o) hdr res hl hnw hn' h0' k s' hs'
+    obtain ⟨t0, ht0, hht⟩ := hdrOf_getElem? (preSave_hdr o) k s0 hs0
+    simp only [hdrOf, Prod.mk.injEq] at hhs hht
+    rw [← hhs.2.1, hm0.size, ← hht.2.1]
+    apply hnull0 t0 (List.mem_of_getElem? ht0)
+    rw [hht.2.2.1, ← hm0.stype, hhs.2.2.1]; exact he
   have hocc : ∀ s ∈ r.obj.secs, s.stype ≠ BitVec.ofNat 32 SHT_NOBITS → 0 < s.size.toNat → s.Occ := by
     intro s hm h1 h2
     refine ⟨h1, fun e => ?_, fun e => ?_⟩
@@ -361,7 +381,7 @@ theorem save_layoutOk (o : Obj) (os : OStream) (r : SaveRes) (hdr : Bytes)
   · intro g hg hload hfs s hm hpb h1 h2
     obtain ⟨res, hl, hsegs, -, he⟩ := save_secs_hdr o os r hdr hs hok hh
     rw [hsegs] at hg
-    obtain ⟨-, -, -, f4⟩ := final_segments false false o hdr res hl hnw hn h0 hnd hdom g hg
+    obtain ⟨-, -, -, f4⟩ := final_segments false false (preSave o) hdr res hl hnw hn' h0' hnd hdom g hg
     obtain ⟨k, hk⟩ := List.getElem?_of_mem hm
     obtain ⟨s', hs', hhs⟩ := hdrOf_getElem? he k s hk
     have hso : s.Occ := hocc s hm (by rw [hpb]; decide) (by omega)
@@ -402,7 +422,7 @@ def exLay0 : Layout := lay0Of exObj 120
 /-- `exObj` meets the hypotheses of `layout_disjoint` -/
 example : exObj.secs.length < 65536 ∧
     (∀ (i : Nat) (s : SecBuf), exObj.secs[i]? = some s → s.Occ → s.index ≠ 0) ∧
-    layoutNW exObj exHdr = true := by
+    layoutNW (preSave exObj) exHdr = true := by
   refine ⟨by decide, ?_, by decide⟩
   intro i s hs ho hi
   have : ∀ t ∈ exObj.secs, t.index = 0 → ¬ t.Occ := by decide
